@@ -19,6 +19,7 @@ import (
 	"go.amzn.com/lambda/fatalerror"
 	"go.amzn.com/lambda/interop"
 	"go.amzn.com/lambda/metering"
+	"go.amzn.com/lambda/verifhook"
 
 	"github.com/google/uuid"
 	log "github.com/sirupsen/logrus"
@@ -410,6 +411,7 @@ func (s *Server) Reset(reason string, timeoutMs int64) (*statejson.ResetDescript
 		}
 
 		resetSuccess, resetFailure := s.sandboxContext.Reset(reset)
+		verifhook.Point("server.reset.beforeClear")
 		s.Clear() // clear server state to prepare for new invokes
 		s.setRapidPhase(phaseIdle)
 		s.setRuntimeState(runtimeNotStarted)
@@ -574,6 +576,7 @@ func (s *Server) FastInvoke(w http.ResponseWriter, i *interop.Invoke, direct boo
 				log.Panicf("default error response was nil for invoke failure, %v", invokeFailure)
 			}
 
+			verifhook.Point("server.fastinvoke.beforeDefaultError")
 			if cachedInitError := s.getCachedInitErrorResponse(); cachedInitError != nil {
 				// /init/error was called
 				s.trySendDefaultErrorResponse(cachedInitError)
@@ -731,6 +734,7 @@ func (s *Server) Invoke(responseWriter http.ResponseWriter, invoke *interop.Invo
 	var err error
 	select {
 	case timeoutErr := <-timeoutChan:
+		verifhook.Point("server.invoke.timeoutBeforeReset")
 		s.Reset(autoresetReasonTimeout, resetDefaultTimeoutMs)
 		select {
 		case releaseErr := <-releaseErrChan: // when AwaitRelease() has errors
